@@ -18,8 +18,9 @@ Record ei_obs := mkEiObs {
        TracebackInfo.from_traceback(tb).get_formatted(),
        the concatenation of tbutils.format_exception_only(type, value),
        what tbutils.print_exception writes,
-       ParsedException.from_string(get_formatted()) *)
-  eo_more : option (str * str * str * res tb)
+       ParsedException.from_string(get_formatted()),
+       ContextualExceptionInfo.from_exc_info(...).get_formatted() *)
+  eo_more : option (str * str * str * res tb * str)
 }.
 
 Definition jn (ls : list str) : str := join NL ls.
@@ -83,14 +84,14 @@ Definition model_ei (fs : list live_frame) (e : live_exc) : ei_obs :=
   mkEiObs (map (fun c => mkCpObs (cp_path c) (cp_lineno c) (cp_func c) (deferred_str P (cp_raw c))) cs)
           ty msg fmt (ei_exc_only ty msg)
           (Some (tbi_formatted P cs, ei_exc_only ty msg ++ M_nl,
-                 tbi_formatted P cs ++ ei_exc_only ty msg ++ M_nl, from_string P fmt)).
+                 tbi_formatted P cs ++ ei_exc_only ty msg ++ M_nl, from_string P fmt, fmt)).
 
 Definition ei_obs_eqb (a b : ei_obs) : bool :=
   list_eqb cp_obs_eqb (eo_frames a) (eo_frames b) && str_eqb (eo_type a) (eo_type b) &&
   str_eqb (eo_msg a) (eo_msg b) && str_eqb (eo_fmt a) (eo_fmt b) && str_eqb (eo_only a) (eo_only b) &&
   match eo_more a, eo_more b with
-  | Some (t1, f1, p1, r1), Some (t2, f2, p2, r2) =>
-      str_eqb t1 t2 && str_eqb f1 f2 && str_eqb p1 p2 && rtb_eqb r1 r2
+  | Some (t1, f1, p1, r1, c1), Some (t2, f2, p2, r2, c2) =>
+      str_eqb t1 t2 && str_eqb f1 f2 && str_eqb p1 p2 && rtb_eqb r1 r2 && str_eqb c1 c2
   | _, None => true          (* the implementation's extra views were not recorded for this case *)
   | None, Some _ => false
   end.
@@ -119,10 +120,10 @@ Definition ei_clauses (fs : list live_frame) (e : live_exc) (o : ei_obs) (T : tb
   str_eqb (eo_fmt o) body &&
   str_eqb (eo_only o) (exc_text (t_type T) (t_msg T)) &&
   match eo_more o with
-  | Some (tbi, feo, prt, _) =>
+  | Some (tbi, feo, prt, _, ctx) =>
       str_eqb (tbi ++ exc_text (t_type T) (t_msg T)) body &&
       str_eqb feo (exc_text (t_type T) (t_msg T) ++ NL) &&
-      str_eqb prt (body ++ NL)
+      str_eqb prt (body ++ NL) && str_eqb ctx body
   | None => true
   end.
 
@@ -136,7 +137,7 @@ Definition ei_verdict (fs : list live_frame) (e : live_exc) (interp : str) (o : 
   let special := negb (plain_exc e) in
   (* ParsedException reads ExceptionInfo's output back whenever the text is well-formed *)
   let reparse := negb (wf P T && src_consistent (t_frames T)) || special ||
-                 match eo_more o with Some (_, _, _, r) => rtb_eqb r (Ok T) | None => true end in
+                 match eo_more o with Some (_, _, _, r, _) => rtb_eqb r (Ok T) | None => true end in
   let holds := spec_valid && ei_clauses fs e o T (std_text T) && reparse in
   (* recorded findings: display-time suggestions, failing __str__; the implementation must then
      show exactly the standard text with its own message *)
